@@ -1,6 +1,6 @@
 #!/bin/bash
 # run every claimed check once (quick unless $2 given) with VERIF_SEED=$1; one summary line per check
-cd /verif
+cd "$(dirname "$0")/.." || exit 2
 seed=${1:-0}; tier=${2:-quick}
 for c in $(/venv/bin/python -c "import json;print(' '.join(x['property_id'] for x in json.load(open('MANIFEST.json'))['checks']))"); do
   s=$(date +%s)
